@@ -1028,7 +1028,19 @@ func (c *Chunker) splitSectionByParagraphs(section *Section, chunkIndex *int, do
 // splitBySentences splits oversized text into sentence-based chunks
 func (c *Chunker) splitBySentences(text string, section *Section, chunkIndex *int, docTitle string, elem ContentElement) []*Chunk {
 	chunks := make([]*Chunk, 0)
-	sentences := splitIntoSentences(text)
+
+	// A sentence that alone exceeds the hard limit is split further at word boundaries
+	var sentences []string
+	wordSplitter := NewSizeCalculatorWithConfig(SizeConfig{
+		Max: SizeLimit{Value: c.config.MaxChunkSize, Unit: SizeUnitCharacters, Type: LimitTypeHard},
+	})
+	for _, sentence := range splitIntoSentences(text) {
+		if len(sentence) > c.config.MaxChunkSize {
+			sentences = append(sentences, wordSplitter.SplitToSize(sentence, nil)...)
+		} else {
+			sentences = append(sentences, sentence)
+		}
+	}
 
 	var currentText strings.Builder
 	for _, sentence := range sentences {
